@@ -26,7 +26,7 @@ class FileManager:
         if not zpage.exists():
             return Error(f"Page does NOT exist: {zpage}")
 
-        zlines = zpage.read_text().split("\n")
+        zlines = c.read_text_verbatim(zpage).split("\n")
         in_note = False
         start_idx = len(zlines) - 1
         for i, line in enumerate(zlines):
@@ -56,7 +56,7 @@ class FileManager:
         """Removes {note} from its last known *.zo file."""
         zpage = c.prepend_zdir(self._zdir, note.file_path)
         assert note.zid is not None
-        for i, line in enumerate(zpage.read_text().split("\n")):
+        for i, line in enumerate(c.read_text_verbatim(zpage).split("\n")):
             if _is_first_line_of_note(line, note.zid):
                 start_idx = i
                 break
@@ -64,7 +64,7 @@ class FileManager:
             err_ctx = f"ZID={note.zid} FILE={note.file_path}"
             return Error(f"Unable to find note in file | {err_ctx}")
         end_idx = start_idx + len(note.body.split("\n"))
-        zlines = zpage.read_text().split("\n")
+        zlines = c.read_text_verbatim(zpage).split("\n")
         new_zlines = zlines[:start_idx] + zlines[end_idx:]
         new_zcontents = "\n".join(new_zlines)
         zpage.write_text(new_zcontents)
